@@ -8,6 +8,7 @@ import (
 	"encoding/hex"
 	"fmt"
 	"os"
+	"runtime/debug"
 	"runtime/pprof"
 	"sort"
 	"strings"
@@ -138,6 +139,7 @@ func structural(kind string) bool {
 func main() {
 	run := core.Start("C18", "exploration", "DIFFREF")
 	glog.SetLog(zap.NewNop())
+	debug.SetGCPercent(400) // live heap is ~100 MB; fewer collections
 	c := &checker{run: run, classes: newTally(), notes: newTally(), samples: core.NewSampler(10, run.Seed), famByNm: map[string]*family{}}
 	c.fams = buildFamilies()
 	for _, f := range c.fams {
@@ -407,7 +409,7 @@ func main() {
 		"distinct_nontrivial": c.classes.Len(),
 		"rule": "(1) every registered concrete type of the wire interfaces ConsensusMessage, WALMessage (inside TimedWALMessage, with every ConsensusMessage inside msgInfo), BlockchainMessage, MempoolMessage, PexMessage, trace Message, Signature, PubKey (found by walking go-wire's registry at run time) and the top-level types Block, Header, Data, Commit, Vote, Proposal, PartSetHeader, Part, BlockID, Validator, ValidatorSet, BlockMeta, GenesisDoc, State, NodeInfo: values generated by reflection = 4 bases (A, B, all-min, all-max) + around A and B every leaf replaced by every alternative, one leaf at a time (signed ints {min,min+1,-1,0,1,±2^53,2^53+1,max}, unsigned {0,1,2^53,2^53+1,2^63,max} (bytes also 2,0x7f,0x80), strings {empty, a, quote+backslash, unicode, a\",\"b, <&>+control}, byte slices {len 0,1,32,1025; nil and empty are one value}, byte arrays {zero,pattern,ff}, times {zero (JSON only: outside the int64-nanosecond domain the binary codec documents), epoch, fixed now, latest and earliest millisecond-aligned int64-nanosecond instants, 1 ms before epoch; all millisecond-aligned = documented precision}, pointers {nil,set}, registered interfaces {nil, each concrete type}, slices len {0,1,3}); each value through wire.BinaryBytes/ReadBinary (limit 0 and limit = length) and wire.JSONBytes/ReadJSON; oracle: decoded value equals the original field by field over the fields the codec handles, re-encoding equal, two encodings equal, no panic. " +
 			"(2) every byte string of length <= 2 into every one of these top-level types through ReadBinary (limits 0,1,len-1,len,len+1), ReadBinaryBytes, ReadJSON and the five reactors' DecodeMessage (pbft, blockchain, mempool, pex, trace); every truncation and every single-byte substitution {00,01,7f,80,ff} of grid encodings of at most 2048 bytes (quick: the 4 bases per root; thorough: also every grid value whose varied leaf can change the structure of the encoding, i.e. all but fixed-width integers, bools, byte arrays and times, those with limits {1,len}) through ReadBinary with limits {1,len-1,len,len+1} and DecodeMessage, and of JSON encodings through ReadJSON plus every JSON node replaced by values of every other JSON type; 2^62 and 2^31 length prefixes at every length-prefix position of the bases (thorough: also of the structural variants); oracle: error or value, never a panic, n <= limit or error, and (single-threaded phase) TotalAlloc delta of one decode <= 64*limit + 1 MiB. Limit 0 means 'no limit' in go-wire: mutated inputs and the 2^31 bomb are not offered with limit 0 (allocation is unbounded by the caller's choice and the Go runtime aborts the process for lengths of 2^33..2^48), the 2^62 bomb is (it cannot allocate, only panic). " +
-			"(3) all ordered pairs over the vote grid and the proposal grid and across them (chain ids incl. JSON-breaking ones, heights {0,1,2^63-1}, rounds {0,1}, types {prevote,precommit}, block ids {nil, A, A' differing in hash / parts total / parts hash}, POL rounds {-1,0,1}, block parts headers): equal sign-bytes imply equal chain id, height, round, type, block id (and POL round / parts header). " +
+			"(3) all ordered pairs over the vote grid and the proposal grid and across them (chain ids incl. JSON-breaking ones, heights {0,1,2^32,2^63-1}, rounds {0,1}, types {prevote,precommit}, block ids {nil, A, A' differing in the last byte of the hash / parts total / last byte of the parts hash}, POL rounds {-1,0,1}, block parts headers): equal sign-bytes imply equal chain id, height, round, type, block id (and POL round / parts header). " +
 			"RLP: every byte string of length <= 2 (quick) / <= 3 (thorough) decoded by in-tree eth/rlp and upstream go-ethereum v1.8.27 rlp into RawValue, uint64, []byte, [][]byte, a plain struct, *big.Int, a struct with rlp:\"nil\"+rlp:\"tail\" (all lengths) and [3]byte, interface{}, string, bool (lengths <= 2), plus raw.Split/SplitList/SplitString/CountValues: same accept/reject, same value, same re-encoding; value grid (same construction, RLP domain: unsigned ints, non-nil non-negative big.Int, byte lengths {0,1(<0x80),1(>=0x80),2,55,56,57,255,256,1025}) of chain/types.KV, eth Header, the transaction field list and the consensus receipt field list: round trip, determinism, byte-equal with upstream, the real types.Transaction / types.Receipt / NewTransaction agree with the field lists; every truncation and every substitution {00,01,7f,80,ff,±1} at every header byte and first/last payload byte of those encodings decoded by both (quick: encodings up to 700 bytes and the bases). distinct_nontrivial = number of distinct (phase, target, entry point, outcome / leaf kind + shape) classes observed",
 		"samples":                   c.samples.List(),
 		"exhaustive":                !unsafeDecoder,
